@@ -168,7 +168,9 @@ func (p *Promise) RegisterContinuationUnsafe(continuation *Promise) {
 }
 
 func (p *Promise) ResolveReject(result, err value.Value) {
+	vhook("settle.lock.try", p)
 	p.m.Lock()
+	vhook("settle.lock.ok", p)
 
 	queue := p.ThreadPool.TaskQueue
 	p.Body = nil
@@ -176,26 +178,34 @@ func (p *Promise) ResolveReject(result, err value.Value) {
 	p.result = result
 	p.err = err
 	p.wg.Done()
+	vhook("settle.published", p)
 	p.enqueueContinuations(queue)
 
 	p.m.Unlock()
+	vhook("settle.unlocked", p)
 }
 
 func (p *Promise) Resolve(result value.Value) {
+	vhook("settle.lock.try", p)
 	p.m.Lock()
+	vhook("settle.lock.ok", p)
 
 	queue := p.ThreadPool.TaskQueue
 	p.Body = nil
 	p.ThreadPool = nil
 	p.result = result
 	p.wg.Done()
+	vhook("settle.published", p)
 	p.enqueueContinuations(queue)
 
 	p.m.Unlock()
+	vhook("settle.unlocked", p)
 }
 
 func (p *Promise) Reject(err value.Value, stackTrace *value.StackTrace) {
+	vhook("settle.lock.try", p)
 	p.m.Lock()
+	vhook("settle.lock.ok", p)
 
 	queue := p.ThreadPool.TaskQueue
 	p.Body = nil
@@ -203,14 +213,18 @@ func (p *Promise) Reject(err value.Value, stackTrace *value.StackTrace) {
 	p.err = err
 	p.stackTrace = stackTrace
 	p.wg.Done()
+	vhook("settle.published", p)
 	p.enqueueContinuations(queue)
 
 	p.m.Unlock()
+	vhook("settle.unlocked", p)
 }
 
 func (p *Promise) enqueueContinuations(queue chan *Promise) {
 	for _, cont := range p.continuations {
+		vhook("enqueue.try", p, cont)
 		queue <- cont
+		vhook("enqueue.ok", p, cont)
 	}
 	p.continuations = nil
 }
